@@ -522,7 +522,7 @@ def run(ctx):
         t0 = time.time()
         ncv = cross_validate(exe, xml, cvd)
         T["cross_validation"] = round(time.time() - t0, 2)
-        st, done, times = explore(exe, xml, L, ctx.deadline)
+        st, done, times = explore(exe, xml, L, common.Deadline(max(ctx.deadline.left(), 0.8 * (ctx.deadline.end - ctx.deadline.t0))))
         t0 = time.time()
         violations = []
         for key in sorted(st.viol):
